@@ -386,7 +386,14 @@ def handleSim (input impl : Json) : R Reply := do
 def handlePerform (input impl : Json) : R Reply := do
   let ups ← listFD upkeepOf input "upkeeps"
   let logs ← listFD logOf input "logs"
-  let performs ← listFD (fun x => do pure ((← natF x "at_ms"), (← natF x "n"))) input "performs"
+  let listed ← listFD (fun x => do pure ((← natF x "at_ms"), (← natF x "n"))) input "performs"
+  let tailBlocks ← natFD input "tail_blocks"
+  let tailN ← natFD input "tail_n"
+  -- the tail blocks follow the listed performs, 53 ms apart
+  let lastAt := (listed.map (·.1)).foldl max 0
+  let performs := listed ++ (List.range tailBlocks).map fun k => (lastAt + 53 * (k + 1), tailN)
+  let hang := (boolF impl "hang").toOption.getD false
+  let hangBlock := (natF impl "hang_block").toOption.getD 0
   let expected := expectedPerforms ups logs
   let err ← strF impl "err"
   let got ← boolF impl "success"
@@ -410,15 +417,17 @@ def handlePerform (input impl : Json) : R Reply := do
       (match val.toNat? with
         | some v => v = ts.tr.value
         | none => true)
-  let agree := err = "" && decide (model = some got) && countsOk && lineOk
+  -- in the model `Increment` never blocks its caller (`go func() { ch <- count }()`), so `Load` always returns
+  let agree := err = "" && !hang && decide (model = some got) && countsOk && lineOk
   let sm := match model with
     | some v => verdictFaithful consumed v
     | none => false
-  let si := err = "" && verdictFaithful consumed got && countsOk
+  let si := err = "" && !hang && verdictFaithful consumed got && countsOk
   let performed := (performs.map (·.2)).sum
   let fail :=
     if si then ""
     else if err ≠ "" then s!"transmit loader: {err}"
+    else if hang then s!"the run hangs: OCR3TransmitLoader.Load did not return within 30 s (virtual time) for perform-carrying block {hangBlock} of {performs.length} — block production stops, no summary, no verdict, no exit status ({expectedSpec ups logs} performs expected by the plan)"
     else if !countsOk then s!"performs forced into blocks were not all loaded and recorded once: loaded {loadedTxs} transmits / {loadedPerf} results, results {results}, forced {performs.length} / {performed}"
     else if got then s!"success reported although a counter was not satisfied ({performed} performed on chain, {expectedSpec ups logs} expected by the plan)"
     else s!"failure reported although every counter was satisfied ({performed} performed on chain, {expectedSpec ups logs} expected by the plan)"
@@ -431,6 +440,8 @@ def handlePerform (input impl : Json) : R Reply := do
            (if expected > 0 && performed = expected then ["exact"] else []) ++
            (if expected > 0 && performed + 1 = expected then ["one-short"] else []) ++
            (if expected > 0 && decide (performed > expected) then ["overshoot"] else []) ++
+           (if tailBlocks > 100 then ["long-tail"] else []) ++
+           (if hang then ["hang"] else []) ++
            (if want then ["expect-success"] else ["expect-failure"]) }
 
 /-! ### "resave" -/
@@ -468,6 +479,36 @@ def handleResave (input impl : Json) : R Reply := do
          diff := if agree then "" else s!"resave: model={showLoaded modelLoaded} impl={showLoaded implLoaded} sizes {size1} → {size2}, file {fileSize} drift={drift}",
          nontrivial := decide (size2 < size1),
          tags := ["resave"] ++ (if size2 < size1 then ["second-shorter"] else if size2 = size1 then ["same-length"] else ["second-longer"]) }
+
+/-! ### "collector" -/
+
+def handleCollector (input impl : Json) : R Reply := do
+  let nUp ← natF input "n_upkeep"
+  let nBlock ← natF input "n_block"
+  let nodes ← natF input "nodes"
+  let rounds ← natF input "rounds"
+  let crash := (strF impl "crash").toOption.getD ""
+  let races ← natF impl "races"
+  let raceSites := (listF asStr impl "race_sites").toOption.getD []
+  let ids ← natF impl "ids"
+  let minLen ← intF impl "min_len"
+  let maxLen ← intF impl "max_len"
+  let dup ← boolF impl "dup"
+  let done ← boolF impl "done"
+  -- every node walks the whole grid at least once when rounds ≥ n_upkeep · n_block: every upkeep, every block
+  let covered := decide (rounds ≥ nUp * nBlock) && decide (nodes ≥ 1)
+  let countsOk := done && ids = nUp && minLen = (nBlock : Int) && maxLen = (nBlock : Int) && !dup
+  let si := crash = "" && races = 0 && (countsOk || !covered)
+  let fail :=
+    if si then ""
+    else if races ≠ 0 then s!"data race in repository code ({races}): {raceSites.eraseDups}"
+    else if crash ≠ "" then s!"contract-event collector crashed while the summary reads it: {crash} at {(strF impl "crash_at").toOption.getD ""}"
+    else s!"merged check record is wrong: {ids} upkeeps with {minLen}..{maxLen} blocks each (duplicates: {dup}) instead of {nUp} with {nBlock}"
+  pure { agree := si, specModel := true, specImpl := si, fail := fail,
+         diff := if si then "" else s!"collector: ids={ids} len={minLen}..{maxLen} dup={dup} done={done} crash={crash} races={races}",
+         nontrivial := covered,
+         tags := ["collector", s!"nodes={nodes}"] ++ (if (boolF impl "race_build").toOption.getD false then ["race-build"] else []),
+         key := s!"collector:{nodes}:{nUp}:{nBlock}:{rounds}" }
 
 /-! ### "transmit" -/
 
@@ -515,6 +556,7 @@ def handle (input impl : Json) : R Reply := do
   | "transmit" => handleTransmit input impl
   | "perform" => handlePerform input impl
   | "resave" => handleResave input impl
+  | "collector" => handleCollector input impl
   | k => throw s!"unknown C20 case kind {k}"
 
 end AutoVerif.C20
